@@ -365,12 +365,13 @@ def to_trace_run(run, defn):
         X, J = out[0][0], out[1][0]
         rows = np.asarray(X, float)
         if rows.ndim != 2:
-            return None, {"what": "gridded output is not a table", "detail": str(rows.shape)}, None
+            return None, {"what": "gridded output is not a table", "detail": str(rows.shape), "stage": "gridding"}, None
         if want_exact:
             ri = [_ints(r) for r in rows]
             ci = [_ints(c) for c in np.asarray(J, float)] if len(J) else []
             if any(r is None for r in ri) or any(c is None for c in ci):
-                return None, {"what": "non-integer gridded rows / counts in exact mode", "detail": ""}, None
+                return None, {"what": "non-integer gridded rows / counts in exact mode", "detail": str(rows[:3].tolist())[:200],
+                              "stage": "gridding"}, None
         else:
             ri = [[int(np.floor(v)) for v in r] for r in rows]
             ri[0] = _ints(rows[0]) or ri[0]
